@@ -5,6 +5,7 @@ import (
 	"fmt"
 	"image/color"
 	"io"
+	"os"
 	"path/filepath"
 	"strings"
 
@@ -251,7 +252,19 @@ func dumpAll(dir string) error {
 		fmt.Fprintf(&sb, "def %sFirstRead : Nat := %d\n", l.name, first)
 	}
 	sb.WriteString("end Prism.Gen\n")
-	return writeIfChanged(filepath.Join(dir, "Consts.lean"), []byte(sb.String()))
+	if err := writeIfChanged(filepath.Join(dir, "Consts.lean"), []byte(sb.String())); err != nil {
+		return err
+	}
+	// access summaries for C11 (syntactic; see access.go)
+	repo := os.Getenv("VERIF_REPO")
+	if repo == "" {
+		repo = "/repo"
+	}
+	acc, err := emitAccessLean(repo)
+	if err != nil {
+		return err
+	}
+	return writeIfChanged(filepath.Join(dir, "Access.lean"), []byte(acc))
 }
 
 // recReader records the size of every Read request it receives.
